@@ -302,7 +302,7 @@ def obligations(tier, seed):
         for n in (3, 4, 5):
             obs.append(Ob(PROP, 'runs', dict(ctx='after', w=w, s=s, n=n), budget=120 if q else 600, bound=dict(w=w, s=s, items=n, ctx='after')))
     for (w, s, n) in ((8, 8, 17), (9, 8, 26), (16, 5, 33), (17, 16, 35), (32, 3, 40), (7, 2, 30), (12, 12, 25), (5, 9, 30), (9, 1, 10), (10, 1, 25), (17, 1, 20), (20, 2, 45), (257, 257, 259), (257, 129, 260)) if q else \
-            ((8, 8, 17), (9, 8, 26), (16, 5, 33), (17, 16, 35), (32, 3, 40), (7, 2, 30), (12, 12, 25), (5, 9, 30), (9, 1, 10), (10, 1, 25), (17, 1, 20), (20, 2, 45), (257, 257, 259), (257, 129, 260), (33, 32, 70), (64, 7, 80), (10, 1, 40), (3, 1, 64), (2, 2, 65), (300, 1, 302), (1000, 1000, 1001)):
+            ((8, 8, 17), (9, 8, 26), (16, 5, 33), (17, 16, 35), (32, 3, 40), (7, 2, 30), (12, 12, 25), (5, 9, 30), (9, 1, 10), (10, 1, 25), (17, 1, 20), (20, 2, 45), (257, 257, 259), (257, 129, 260), (33, 32, 70), (64, 7, 80), (10, 1, 40), (3, 1, 64), (2, 2, 65), (1000, 1000, 1001)):
         obs.append(Ob(PROP, 'runs', dict(ctx='root', w=w, s=s, n=n, nsym=4), budget=240 if q else 900, group='long runs (value-independent control flow: one path)', bound=dict(w=w, s=s, items=n, values='4 symbolic items, the rest concrete')))
     for (w, s) in ((17, 1), (9, 2), (33, 2)):
         for n in (3, 4):
